@@ -1487,8 +1487,9 @@ class ClientRequest(ClientRequestBase):
             try:
                 await self._continue
             except asyncio.CancelledError:
-                # The body was never sent, so the connection can't be reused
-                conn.close()
+                # A body that was never sent means the connection can't be reused
+                if self._body.size != 0:
+                    conn.close()
                 raise
 
         protocol = conn.protocol
